@@ -11,7 +11,15 @@ HEADER = ''
 
 
 def correspondence(ctx):
-    return dict(evaluations=0, distinct_nontrivial=0, rule='none (abstract loop contracts; see oracle)', samples=[], disagreements=[], stats={})
+    """steady state of generated polynomial DAGs: the implementation's table vs the executable model's (which decides well-formedness of the evaluation order itself),
+    re-evaluation at the steady state, zero shock"""
+    from lib import nlmodels as NL
+    meta, exprs, dis = NL.dag_correspondence(ctx, 'C07', 24 if ctx['tier'] == 'quick' else 240)
+    return dict(evaluations=len(exprs), distinct_nontrivial=len({C.canon(m[0]['spec']) for m in meta}),
+                rule='generated models of polynomial @simple blocks (1-3 unknowns, leads/lags, shuffled listing): steady_state from the calibration vs the table computed by the executable rational model '
+                     '(Model/NLSolve.v ss_eval; 1e-12), well-formedness of the evaluation order decided in Coq (hypothesis of the fixed-point theorem), bit-exact re-evaluation at the steady state, '
+                     'exactly zero response to a zero shock, nonlinear paths vs the model (1e-11)',
+                samples=[dict(blocks=[[NL.py(e) for _, e in b['outs']] for b in meta[0][0]['spec']['blocks']])] if meta else [], disagreements=dis, stats={})
 
 
 def check_het(name, blk, calib, out):
